@@ -135,6 +135,7 @@ func Check(c *fw.Ctx, scope string, order int64, in []byte) bool {
 				Observed: "library accepts: " + oneLine(lm), Expected: "error (reference decoder: REJECT, " + why + ")",
 				Explain: "the byte string is not a well-formed DHCPv6 message (" + why + ") but decoding succeeds", GoTest: goTest(in)})
 		}
+		otherEntryPoints(c, scope, order, in, false, nil)
 		return false
 	case v6ref.Unspecified:
 		noteUnspecified(c, why)
@@ -174,6 +175,9 @@ func Check(c *fw.Ctx, scope string, order int64, in []byte) bool {
 			Explain: "a decoded field differs from what the RFC layout says the bytes mean (library value vs reference value)", GoTest: goTest(in)})
 		return true
 	}
+	if rv == v6ref.Accept {
+		otherEntryPoints(c, scope, order, in, true, rt)
+	}
 	// history: the program edits the message it received, then the same datagram is decoded again;
 	// the second result is a function of the bytes alone
 	var lm2 dhcpv6.DHCPv6
@@ -200,6 +204,56 @@ func Check(c *fw.Ctx, scope string, order int64, in []byte) bool {
 			GoTest:  goTest(in)})
 	}
 	return true
+}
+
+// otherEntryPoints: MessageFromBytes and RelayMessageFromBytes are exported decoders too (the DHCPv6 client reads the
+// socket through MessageFromBytes). The one that fits the message type must give the verdict and the value FromBytes
+// gives; the other one must refuse the input.
+func otherEntryPoints(c *fw.Ctx, scope string, order int64, in []byte, accept bool, rt *v6ref.Msg) {
+	relay := len(in) > 0 && (in[0] == 12 || in[0] == 13)
+	var mm *dhcpv6.Message
+	var rm *dhcpv6.RelayMessage
+	var merr, rerr error
+	if pv, st := fw.Safe(func() {
+		mm, merr = dhcpv6.MessageFromBytes(append([]byte(nil), in...))
+		rm, rerr = dhcpv6.RelayMessageFromBytes(append([]byte(nil), in...))
+	}); pv != nil {
+		c.Report(fw.Violation{Fingerprint: "dhcpv6.MessageFromBytes/RelayMessageFromBytes|panic|" + fw.PanicSite(st), Order: order, Scope: scope, Input: fw.Hex(in),
+			Observed: fmt.Sprintf("panic: %v at %s", pv, st), Expected: "value or error"})
+		return
+	}
+	check := func(name string, fits bool, err error, val dhcpv6.DHCPv6) {
+		want := accept && fits
+		if (err == nil) != want {
+			exp := "error"
+			if want {
+				exp = "accepted (FromBytes accepts it and the message type fits this decoder)"
+			}
+			c.Report(fw.Violation{Fingerprint: "dhcpv6." + name + "|verdict-differs-from-FromBytes", Order: order, Scope: scope, Input: fw.Hex(in),
+				Observed: fmt.Sprintf("%s: err=%v", name, err), Expected: exp,
+				Explain: "every exported decoder accepts exactly the well-formed messages of its kind"})
+			return
+		}
+		if want && rt != nil {
+			var lt *v6ref.Msg
+			if pv, _ := fw.Safe(func() { lt = adapt.TreeOfMessageWith(val, adapt.V6Opts{DedupORO: true}) }); pv != nil || len(adapt.V6Unadapted(lt)) > 0 {
+				return
+			}
+			if ok, path, desc := v6ref.Equal(lt, rt); !ok {
+				c.Report(fw.Violation{Fingerprint: "dhcpv6." + name + "|field|" + v6ref.PathClass(path), Order: order, Scope: scope, Input: fw.Hex(in),
+					Observed: fmt.Sprintf("%s: library %s", path, desc), Expected: "reference tree: " + rt.String()})
+			}
+		}
+	}
+	var mv, rvv dhcpv6.DHCPv6
+	if mm != nil {
+		mv = mm
+	}
+	if rm != nil {
+		rvv = rm
+	}
+	check("MessageFromBytes", !relay, merr, mv)
+	check("RelayMessageFromBytes", relay, rerr, rvv)
 }
 
 func oneLine(m dhcpv6.DHCPv6) string {
